@@ -127,7 +127,7 @@ func cmdRun(args []string) int {
 		base := filepath.Base(path)
 		rel, _ := filepath.Rel(*repo, filepath.Dir(path))
 		switch {
-		case strings.Contains(path, "/internal/zzverif/"), strings.Contains(path, "/internal/zzspv/"), strings.Contains(path, "/internal/zzclike/"):
+		case strings.Contains(path, "/internal/zzverif/"), strings.Contains(path, "/internal/zzspv/"), strings.Contains(path, "/internal/zzclike/"), strings.Contains(path, "/internal/zztpl/"), strings.Contains(path, "/internal/zzir/"):
 			overlay[path] = b
 		case strings.HasPrefix(base, pfx):
 			overlay[path] = b
